@@ -22,7 +22,10 @@ def pmap(fn, items, nproc=None, chunksize=1):
         return [fn(x) for x in items]
     ctx = mp.get_context("fork")
     with ctx.Pool(nproc, initializer=_init) as p:
-        return p.map(fn, items, chunksize=chunksize)
+        out = p.map(fn, items, chunksize=chunksize)
+        p.close()
+        p.join()          # workers exit normally (lets tools/coverage.sh collect their line data)
+        return out
 
 
 def chunks(seq, n):
